@@ -244,6 +244,16 @@ func runC14(c *Ctx) {
 			}
 		}
 	}
+	// bracket classes with ranges on texts that contain the range's own delimiter
+	if c.Level("fixed:class ranges") {
+		dash := texts("ac-x", 4)
+		for _, rs := range []string{"[a-c]+", "[a-c]", "x[a-c]x", "[^a-c]+", "[a-]+", "[-a]+", "[a-c-]+", "[a-cx]+", "[x-xa-a]+", "[^-]+", "[a-c][^a-c]", "([a-c])-\\1"} {
+			rs := rs
+			if c.Unit(func() string { return "@/" + rs + "/" }) {
+				c14Unit(c, RX{S: rs, N: 3}, dash)
+			}
+		}
+	}
 	gr := newRxGram(true)
 	t4 := texts("ab\n", 4)
 	for n := 1; n <= c.Pick(4, 5); n++ {
